@@ -101,6 +101,11 @@ pub struct Known {
     pub defaultable: bool,
     pub has_vft: bool,
     pub vis: bool,
+    /// its (own or inherited) vftable has a private function: a derived type in another module would
+    /// get a wrapper that reads a private field of the base's vftable struct (finding F20, excluded)
+    pub private_vfunc: bool,
+    /// the type and all of its transitive bases are public (needed to derive from it in another module)
+    pub hier_pub: bool,
 }
 
 pub struct Gen<'t, 'd> {
@@ -497,7 +502,9 @@ impl<'t, 'd> Gen<'t, 'd> {
             let cands: Vec<usize> = (0..self.known.len())
                 .filter(|&k| {
                     let kn = &self.known[k];
-                    kn.kind == "struct" && (kn.module == m || kn.vis) && (!packed || kn.packed || self.cfg.allow_packed_embed)
+                    kn.kind == "struct"
+                        && (kn.module == m || (kn.vis && !kn.private_vfunc && kn.hier_pub))
+                        && (!packed || kn.packed || self.cfg.allow_packed_embed)
                 })
                 .collect();
             if !cands.is_empty() {
@@ -604,7 +611,7 @@ impl<'t, 'd> Gen<'t, 'd> {
                 can_clone &= kn.cloneable;
                 can_default &= kn.defaultable;
             }
-            let fname = if is_base { format!("b{fi}") } else if self.t.chance(1, 10) && !matches!(ty, Ty::Unk(_)) { "_".to_string() } else { format!("f{fi}") };
+            let fname = if is_base { self.fresh("b") } else if self.t.chance(1, 10) && !matches!(ty, Ty::Unk(_)) && size > 0 { "_".to_string() } else { format!("f{fi}") };
             // an unnamed field of a zero-length array type is dropped: fine. A *named* zero-length array is
             // not emitted either (generator restriction, DESIGN §2.1): never generated (arrays have >= 1 element)
             fields.push(Field {
@@ -670,6 +677,8 @@ impl<'t, 'd> Gen<'t, 'd> {
         // markers
         if self.cfg.markers {
             let sound = self.cfg.sound_derives;
+            // derive(Clone) on a packed struct copies the fields out, so they must be Copy
+            let can_clone = if packed { can_copy } else { can_clone };
             if self.t.chance(1, 4) && (can_copy || !sound) {
                 td.copyable = true;
             } else if self.t.chance(1, 4) && (can_clone || !sound) {
@@ -705,6 +714,12 @@ impl<'t, 'd> Gen<'t, 'd> {
                     defaultable: td.defaultable,
                     has_vft: l.has_vft,
                     vis: td.vis,
+                    hier_pub: td.vis && bases.iter().all(|&b| self.known[b].hier_pub),
+                    private_vfunc: {
+                        let own = td.vft.as_ref().map(|v| v.funcs.iter().any(|f| !f.vis)).unwrap_or(false);
+                        let inherited = bases.first().map(|&b| self.known[b].private_vfunc).unwrap_or(false);
+                        own || (first_base_has_vft && inherited)
+                    },
                 });
                 // impl block
                 if self.cfg.impls && self.t.chance(1, 2) {
@@ -872,6 +887,8 @@ impl<'t, 'd> Gen<'t, 'd> {
             defaultable: e.defaultable,
             has_vft: false,
             vis: e.vis,
+            private_vfunc: false,
+            hier_pub: true,
         });
         self.prog.mods[m].items.push(Item::Enum(e));
     }
@@ -899,6 +916,8 @@ impl<'t, 'd> Gen<'t, 'd> {
             defaultable: false,
             has_vft: false,
             vis: true,
+            private_vfunc: false,
+            hier_pub: true,
         });
     }
 
